@@ -172,6 +172,7 @@ func resultsSender(c *core.Ctx, pkg, typ string, queriesArg, resultsArg int) wir
 			r := absValue(t, "res", eval.K(0)).(*eval.StructVal)
 			r.F["qidx"] = eval.K(int64(i))
 			r.F["qname"] = eval.S(fmt.Sprintf("q%d", i))
+			pushDownEmbedded(r, map[*eval.StructVal]bool{}) // the index and name may live in an embedded struct
 			ch.Sent = append(ch.Sent, r)
 			ch.Feed = append(ch.Feed, r)
 		}
@@ -611,6 +612,63 @@ func wiringVariants(c *core.Ctx, rule string) {
 			}
 		}
 	}
+	// a window given inside an alignment whose reference row has gaps: --start/--end are positions in the reference
+	// (what the writers compare with each record's position), so they reach the writers as given, whatever the columns
+	for _, stdin := range []bool{false, true} {
+		for _, suffix := range []string{"gb", "gff"} {
+			for _, agg := range []bool{false, true} {
+				in := msaFile
+				if stdin {
+					in = stdinH
+				}
+				gapped := encRecord(c, "REFID", "")
+				var vs []eval.Value
+				for _, ch := range []byte("A--GCT") {
+					vs = append(vs, eval.K(wiringTables(c).Soft[ch]))
+				}
+				gapped.F["Seq"] = eval.NewSlice(vs...)
+				canned := map[string]wireCanned{
+					"variants.findReference":      func(a []eval.Value, sig *types.Signature) eval.Value { return eval.Tuple{gapped, eval.Nil{}} },
+					"genbank.ReadGenBank":         wireGenbank("ttga"),
+					"gff.ReadGFF":                 wireGFF(c, []string{"TTGA"}, 4),
+					"variants.RegionsFromGenbank": wireRegions("genbank"), "variants.RegionsFromGFF": wireRegions("gff"),
+					"fastaio.ReadEncodeAlignment": func(a []eval.Value, sig *types.Signature) eval.Value {
+						recT := namedType(c, "pkg/fastaio", "EncodedFastaRecord")
+						if ch, ok := wireFind(a, sig, func(pt types.Type, v eval.Value) bool {
+							ct, isCh := pt.Underlying().(*types.Chan)
+							return isCh && recT != nil && types.Identical(ct.Elem(), recT)
+						}).(*eval.ChanVal); ok {
+							ch.Sent = append(ch.Sent, gapped)
+							ch.Feed = append(ch.Feed, gapped)
+						}
+						return nil
+					},
+				}
+				var ev []string
+				if !stdin {
+					ev = append(ev, "variants.findReference(file:msa, \"REFID\")")
+				}
+				ev = append(ev, "fastaio.ReadEncodeAlignment("+in.Tag+", false, chan, chan, chan)")
+				regs := "[regions(genbank)]"
+				if suffix == "gb" {
+					ev = append(ev, "genbank.ReadGenBank(reader:annotation)", "variants.RegionsFromGenbank(genbank(reader:annotation), 4)")
+				} else {
+					regs = "[regions(gff)]"
+					ev = append(ev, "gff.ReadGFF(reader:annotation)", "variants.RegionsFromGFF(gff(reader:annotation), \"AGCT\")")
+				}
+				if agg {
+					ev = append(ev, "variants.AggregateWriteVariants(writer:out, 4, 5, true, 0.25, \"REFID\", chan, chan, chan)")
+				} else {
+					ev = append(ev, "variants.WriteVariants(writer:out, 4, 5, "+fmtB(stdin)+", true, \"REFID\", chan, chan, chan)")
+				}
+				// reference-to-alignment per base; alignment-to-reference per column of "A--GCT" (documented: 0 at the gap columns)
+				ev = append(ev, "variants.getVariants(record(REFID), "+regs+", [1], [0 2 2 2], [0 0 0 2 2 2], chan, chan, chan)")
+				scs = append(scs, wireScenario{label: fmt.Sprintf("window 4..5 inside an alignment whose reference row is A--GCT, stdin=%v annotation=.%s aggregate=%v", stdin, suffix, agg), numCPU: 2, canned: canned,
+					args: []eval.Value{in, stdin, eval.S("REFID"), wr("reader:annotation"), eval.S(suffix), wr("writer:out"), eval.K(4), eval.K(5), agg, eval.FConst(0.25), true, eval.K(1)},
+					want: ev})
+			}
+		}
+	}
 	// an annotation kind the library does not know is an error, not an unannotated run
 	for _, suffix := range []string{"txt", "", "gbk"} {
 		scs = append(scs, wireScenario{label: "annotation kind " + fmtS(suffix), numCPU: 2, wantErr: true,
@@ -620,6 +678,16 @@ func wiringVariants(c *core.Ctx, rule string) {
 					return eval.Tuple{encRecordSeq(c, "REFID", false), eval.Nil{}}
 				}},
 			args: []eval.Value{msaFile, false, eval.S("REFID"), wr("reader:annotation"), eval.S(suffix), wr("writer:out"), eval.K(-1), eval.K(-1), false, eval.FConst(0), false, eval.K(1)}})
+	}
+	// a GenBank annotation whose sequence is shorter or longer than the (degapped) reference record describes another
+	// genome: its coordinates do not apply
+	for _, origin := range []string{"ttg", "ttgac"} {
+		scs = append(scs, wireScenario{label: fmt.Sprintf("GenBank ORIGIN of %d bases, reference record of 4", len(origin)), numCPU: 2, wantErr: true,
+			canned: map[string]wireCanned{"genbank.ReadGenBank": wireGenbank(origin), "variants.RegionsFromGenbank": wireRegions("genbank"),
+				"variants.findReference": func(a []eval.Value, sig *types.Signature) eval.Value {
+					return eval.Tuple{encRecordSeq(c, "REFID", false), eval.Nil{}}
+				}},
+			args: []eval.Value{msaFile, false, eval.S("REFID"), wr("reader:annotation"), eval.S("gb"), wr("writer:out"), eval.K(-1), eval.K(-1), false, eval.FConst(0), false, eval.K(1)}})
 	}
 	dumpWiring(c, "pkg/variants", "Variants", scs[:1])
 	checkWiring(c, rule, "pkg/variants", "Variants", scs)
